@@ -12,7 +12,7 @@ ORACLE_RULE = ("C09: every shipped formula indicator (26 kinds, rotating) x dege
 ASSUMPTIONS = ["Supertrend's long/short fields are exempt from the no-gap clause: exactly one of them is set by design (C10 checks that)",
                "Counter is exercised on input_value='volume', count_value=0; the other indicators on their default price inputs",
                "TZ=UTC for the timeframe families"]
-PARTIAL = "exact ordered field for 'denominator is not 0' (IEEE overflow/NaN outside). Proved: every division/sqrt guarded per call; and for EVERY composite and leaf kind (ATR, RSI, KC, STDEV, BBANDS, Supertrend, MACD, STOCH, TSI, ADX, HMA, VWAP, Donchian, HighestLowest, Aroon, Counter, STDEVTHRES, SMA, EMA, RMA, WMA, VWMA, HLA, TR, OBV): X_never_raises - the batch run and every append schedule return on every raw stream, on the base timeframe, a collapsing timeframe and with gap filling - and X_no_gaps - every output field is None exactly below its warm-up index and a number from it on. Also proved: Amorph over all 20 functions on every manager (amorph_never_raises, amorph_no_gaps); every X_never_raises / X_no_gaps on Heikin-Ashi managers (alone, on a collapsing timeframe, with gap filling: three more MgrSpec instances); lifespan managers for all 27 classes under C15's retention hypothesis (never_raises_lifespan; Amorph unconditionally) - without that hypothesis SMA / ROC / WMA / VWMA / BBANDS / HMA raise IndexError after a trim that keeps fewer candles than their look-back (lifespan_short_retention_raises, replayed on the library; outside this property's quantifier, which has no lifespan). Chained inputs: X_no_gaps_inputs / X_never_raises_inputs for 17 kinds over a None-then-numeric column on any candle list, and the two-member Hexital form (rsi_over_ema_hexital, sma_over_rsi_hexital, chained_pair_no_gaps: the live run returns on every MgrSpec). Open (C09_FULL): longer chains and dotted-field sources at the Hexital level; lifespan with a collapsing timeframe; ROC with a zero reference input is an open known finding"
+PARTIAL = "exact ordered field for 'denominator is not 0' (IEEE overflow/NaN outside). Proved: every division/sqrt guarded per call; and for EVERY composite and leaf kind (ATR, RSI, KC, STDEV, BBANDS, Supertrend, MACD, STOCH, TSI, ADX, HMA, VWAP, Donchian, HighestLowest, Aroon, Counter, STDEVTHRES, SMA, EMA, RMA, WMA, VWMA, HLA, TR, OBV): X_never_raises - the batch run and every append schedule return on every raw stream, on the base timeframe, a collapsing timeframe and with gap filling - and X_no_gaps - every output field is None exactly below its warm-up index and a number from it on. Also proved: Amorph over all 20 functions on every manager (amorph_never_raises, amorph_no_gaps); every X_never_raises / X_no_gaps on Heikin-Ashi managers (alone, on a collapsing timeframe, with gap filling: three more MgrSpec instances); lifespan managers for all 27 classes under C15's retention hypothesis (never_raises_lifespan; Amorph unconditionally) - without that hypothesis SMA / ROC / WMA / VWMA / BBANDS / HMA raise IndexError after a trim that keeps fewer candles than their look-back (lifespan_short_retention_raises, replayed on the library; outside this property's quantifier, which has no lifespan). Chained inputs: X_no_gaps_inputs / X_never_raises_inputs for 17 kinds over a None-then-numeric column on any candle list, and the two-member Hexital form (rsi_over_ema_hexital, sma_over_rsi_hexital, chained_pair_no_gaps: the live run returns on every MgrSpec). Round 7: lifespan managers TOGETHER with a collapsing timeframe / fill / Heikin-Ashi - the trimmed run returns whenever the untrimmed one does, under the retention hypothesis (never_raises_lifespan_mgr and the per-kind instances; without it SMA raises on a timeframe too: lifespan_short_retention_raises_tf). Open (C09_FULL): longer chains and dotted-field sources at the Hexital level; lifespan with a collapsing timeframe; ROC with a zero reference input is an open known finding"
 
 
 def oracle(ctx):
